@@ -31,6 +31,13 @@ impl std::fmt::Debug for Callback {
 
 #[derive(Debug)]
 pub struct Inner {
+    /// the destination's own origin: positions the writer sees are `bias` + the index into `data`
+    /// (a file that already holds `bias` bytes, kept sparse); accesses below it are recorded
+    pub bias: u64,
+    /// absolute position when it lies below `bias`
+    pub below: Option<u64>,
+    /// writes that landed below `bias`: (absolute position, length)
+    pub low_writes: Vec<(u64, u64)>,
     /// `write` accepts at most this many bytes per call (a destination that takes data in pieces)
     pub max_write: Option<usize>,
     /// called (once) at the beginning of the k-th call
@@ -55,6 +62,9 @@ impl Dest {
     pub fn new(prefill: Vec<u8>, pos: u64) -> Self {
         Dest(Rc::new(RefCell::new(Inner {
             on_call: None,
+            bias: 0,
+            below: None,
+            low_writes: vec![],
             max_write: None,
             data: prefill,
             pos,
@@ -69,6 +79,13 @@ impl Dest {
     }
     pub fn on_call(&mut self, k: u64, f: Box<dyn Fn()>) {
         self.0.borrow_mut().on_call = Some((k, Callback(f)));
+    }
+    pub fn with_bias(self, bias: u64) -> Self {
+        self.0.borrow_mut().bias = bias;
+        self
+    }
+    pub fn low_writes(&self) -> Vec<(u64, u64)> {
+        self.0.borrow().low_writes.clone()
     }
     pub fn with_max_write(self, n: Option<usize>) -> Self {
         self.0.borrow_mut().max_write = n.map(|n| n.max(1));
@@ -121,6 +138,13 @@ impl Write for Dest {
             Some(n) if buf.len() > n => &buf[..n],
             _ => buf,
         };
+        if let Some(a) = s.below {
+            // below the destination's origin: nothing of the image may ever land here
+            s.low_writes.push((a, buf.len() as u64));
+            s.below = Some(a + buf.len() as u64);
+            s.writes += 1;
+            return Ok(buf.len());
+        }
         let at = s.pos as usize;
         if s.data.len() < at + buf.len() {
             s.data.resize(at + buf.len(), 0);
@@ -156,19 +180,29 @@ impl Seek for Dest {
         if to != SeekFrom::Current(0) {
             s.tick()?;
         }
+        let bias = s.bias as i128;
+        let cur_abs: i128 = match s.below {
+            Some(a) => a as i128,
+            None => bias + s.pos as i128,
+        };
         let np: i128 = match to {
             SeekFrom::Start(p) => p as i128,
-            SeekFrom::Current(d) => s.pos as i128 + d as i128,
-            SeekFrom::End(d) => s.data.len() as i128 + d as i128,
+            SeekFrom::Current(d) => cur_abs + d as i128,
+            SeekFrom::End(d) => bias + s.data.len() as i128 + d as i128,
         };
         if np < 0 {
             return Err(Error::new(ErrorKind::InvalidInput, "seek before start"));
         }
-        s.pos = np as u64;
+        if np < bias {
+            s.below = Some(np as u64);
+        } else {
+            s.below = None;
+            s.pos = (np - bias) as u64;
+        }
         if to != SeekFrom::Current(0) {
             let p = s.pos;
             s.log.push(DestOp::Seek { to: p });
         }
-        Ok(s.pos)
+        Ok(np as u64)
     }
 }
